@@ -103,6 +103,14 @@ def validate_pair(prop_id, a, b, tables, K, strings_list=(), nullable=(), label=
     sa, sb = sides
     r['slots'] = (len(sa.rel.slots), len(sb.rel.slots))
     r['same_sql'] = sa.sql == sb.sql
+    if sa.rel.cols != sb.rel.cols and sorted(sa.rel.cols) == sorted(sb.rel.cols) \
+        and len(set(sa.rel.cols)) == len(sa.rel.cols) and not ordered:
+      # same named columns in another order (e.g. the rules of a predicate were permuted and
+      # the first rule fixes the column order): compare as relations over named columns
+      perm = [sb.rel.cols.index(c) for c in sa.rel.cols]
+      sb.rel = V.Rel(sa.rel.cols, [(g, [row[i] for i in perm]) for g, row in sb.rel.slots],
+                     ordered=sb.rel.ordered, distinct=sb.rel.distinct)
+      r['columns_reordered'] = True
     if sa.rel.cols != sb.rel.cols:
       ha, _ = sa.run_real(schema, {})
       hb, _ = sb.run_real(schema, {})
@@ -148,6 +156,10 @@ def validate_pair(prop_id, a, b, tables, K, strings_list=(), nullable=(), label=
       modes = e1.col_modes(sa.rel)
       ha, ra = sa.run_real(schema, rows)
       hb, rb = sb.run_real(schema, rows)
+      if r.get('columns_reordered') and sorted(ha) == sorted(hb):
+        pr = [hb.index(c) for c in ha]
+        rb = [tuple(row[i] for i in pr) for row in rb]
+        hb = list(ha)
       same_real, xa, xb = e1.compare_concrete(ra, [tuple(x) for x in rb], modes, ordered=ordered)
       ma = V.concretize_rel(m, sa.rel, strings)
       mb = V.concretize_rel(m, sb.rel, strings)
